@@ -8,7 +8,7 @@ SPEC = {
         Suite(name="bucket", harness="vh_bucket", runner="bucket", godev=True,
               model_deps=["theories/Model/Bucket.vo"],
               quick_n=600, thorough_n=12000,
-              rule="cases: buckets are opened through the public constructors (storage.NewBucket / NewAPI with cfg.LocalStorage). 50% random sequences of 4..35 operations (write, read, list, storage.Copy inside the bucket followed by a "
+              rule="cases: buckets are opened through the public constructors (storage.NewBucket / NewAPI with cfg.LocalStorage); in 5/7 of the operation sequences the storage root is spelled RELATIVE to the working directory (store, ./store, ../<base>/store, store/, store/../store; the services' default is the relative .localstorage). 50% random sequences of 4..35 operations (write, read, list, storage.Copy inside the bucket followed by a "
                    "read of the destination and, 75%, by overwrites and reads of BOTH names; writers as handles: NewWriter / Write.. / Close with "
                    "a double Close (as every service handler does), writes after Close, then TWO writers open at the same time on "
                    "different objects with interleaved writes, then reads of all of them; copies onto an existing object, onto "
